@@ -18,7 +18,7 @@ var checks = map[string]*check{
 		Title: "MuxBroker connects Dial(id) only to Accept(id)",
 		Level: "model_checking",
 		Rule: "every schedule / timer order / select choice of the real MuxBroker pair over yamux with at most d deviations from the canonical scheduler, " +
-			"for every 1- and 2-ID pattern of (dial side, issue order, gap); an execution is non-trivial when at least one decision point offered >= 2 alternatives",
+			"for every 1- and 2-ID pattern of (dial side, issue order, gap); plus, on a full net/rpc client/server pair, 3 concurrent Dispense calls and an Accept/Dial pair in each direction concurrent with 2 Dispense calls (token routing, one server object per dispense); an execution is non-trivial when at least one decision point offered >= 2 alternatives",
 		Assumptions: []string{
 			"interleavings inside yamux/net-rpc are not enumerated (they run to quiescence between go-plugin's synchronisation points)",
 			"virtual connection models a reliable ordered byte stream with a 208 KiB buffer",
@@ -174,7 +174,7 @@ var checks = map[string]*check{
 	"C03": {
 		Title: "Plugin failure at any point becomes a host error, never a crash or hang",
 		Level: "fault_enumeration",
-		Rule: "a full host session (Start, Client, Dispense, unary call, a second goroutine holding a long call, brokered exchange host->plugin and plugin->host, Ping, Kill) on net/rpc, gRPC and gRPC+mux against a scripted plugin process; " +
+		Rule: "a full host session (Start, Client, Dispense, unary call, on gRPC a bidirectional stream with two exchanges, a second goroutine holding a long call, brokered exchange host->plugin and plugin->host, Ping, Kill; the plugin writes 3000 bytes to its stdout that are streamed to SyncStdout meanwhile) on net/rpc, gRPC and gRPC+mux against a scripted plugin process; " +
 			"the fault 'plugin process dies now' is offered at every decision point of every explored schedule (quick: crash point x canonical schedule; thorough: plus one more scheduling / timer / select deviation); non-trivial = executions in which the crash was injected",
 		Assumptions: []string{
 			"process death = the failure domain is marked dead, its sockets and stdio pipes are closed as the kernel does, its goroutines never run again",
